@@ -1,15 +1,21 @@
 (** C15 — generated TikZ is well-formed and labels are faithful.
     Statements only; every proof is [exact <lemma of Proofs/*.v>].
     [templates], [skeleton], [layer_names] are regenerated from render/tikz.py on every run
-    (Gen/TikzTemplates.v), so the theorems about them are re-checked against the current source. *)
+    (Gen/TikzTemplates.v), so the theorems about them are re-checked against the current source.
+    The per-template theorems of the first section are composed into theorems about the whole
+    output of [render_full] in the section "End to end" ([C15_render_full_balanced],
+    [C15_render_full_text_defined]): that every emitted line is an instance of a generated
+    template with balanced hole values is proved there, not assumed. *)
 From Coq Require Import String Ascii List Bool Arith.
 From SR Require Import Model.Escape Model.Wrap Model.Colour Model.Tikz Gen.TikzTemplates.
 From SR Require Import Proofs.EscapeProofs Proofs.WrapProofs Proofs.ColourProofs Proofs.TikzProofs.
+From SR Require Import Proofs.RenderProofs.
 Import ListNotations.
 
 (** ** Well-formed output *)
 
-(* Every string the renderer can emit is an instance of one of the generated templates.  For every
+(* Every string the renderer can emit is an instance of one of the generated templates (proved for
+   the output of [render_full] in [C15_render_full_balanced] below).  For every
    instantiation whose hole values are brace-balanced strings, the text is balanced -- [balanced]
    fails as soon as a brace closes below depth 0 -- and, for a statement of the picture (or a node
    handed to the measurer), ends with a semicolon. *)
@@ -70,6 +76,75 @@ Print Assumptions C15_render_skeleton.
 Theorem C15_single_environment : environment_ok templates skeleton = true.
 Proof. exact single_environment. Qed.
 Print Assumptions C15_single_environment.
+
+(** ** End to end: the whole text of [render_full]
+
+    [render_full] (Model/Tikz.v: labels and colours of [layout.compute], then [tikz.render]) returns
+    one triple per output line: template number, colour index, text (label / HTML colour / layer
+    name).  Coordinates and drawing parameters are not modelled.  Proofs/RenderProofs.v defines the
+    text of a line: [oline_text templates o free] instantiates the template of line [o], filling its
+    holes from left to right ([fill]) with
+      - the colour name [colour_name templates i] (= the [get_color] template applied to the decimal
+        index [dec i]) or the index itself, [i] being the colour index of the line,
+      - the text of the line for a label, HTML colour or layer-name hole,
+      - the next element of [free] for a coordinate or parameter hole ([free] must be used up);
+    [text_lines templates ols frees] does this for every line, one list of free values per line.
+    [tree_ok t]: no name, family or colour of the object tree contains a brace;
+    [occ p s]: number of positions of [s] at which the word [p] occurs. *)
+
+(* Whenever [render_full] succeeds on an object tree and species names without braces, then for
+   every choice of brace-free coordinates and parameters:
+   (a) every line is brace-balanced and never closes below depth 0, and so is the whole text
+       (the lines joined by newlines);
+   (b) every line instantiated from a statement template ends with a semicolon;
+   (c) the text is: the definitions (an instance of a definitions template), the colour definitions
+       (each naming the colour exactly as [get_color] does), \begin{tikzpicture}, lines that are a
+       layer comment or end with a semicolon, \end{tikzpicture}, and an empty last line; and the
+       words \begin{ and \end{ occur exactly once each in the whole text, so there is exactly one
+       environment. *)
+Theorem C15_render_full_balanced : forall vertical ewidth swidth t spp ols frees lines,
+  tree_ok t ->
+  Forall (fun s : bool * string * list rbranch => brace_free (los (snd (fst s)))) spp ->
+  Forall (Forall brace_free) frees ->
+  render_full templates skeleton layer_names vertical ewidth swidth t spp = Some ols ->
+  text_lines templates ols frees = Some lines ->
+  Forall (fun l => scan l 0 = Some 0) lines
+  /\ balanced (join_with [nl] lines) = true
+  /\ Forall2 (fun (o : oline) l => forall e, nth_error templates (fst (fst o)) = Some e ->
+                is_stmt (e_site e) = true -> ends_with_semi l = true) ols lines
+  /\ exists defs cdefs body,
+       lines = defs :: cdefs ++ begin_line :: body ++ [end_line; []]
+       /\ (exists e vals, In e templates /\ e_site e = SDefs /\ inst (e_items e) vals = Some defs)
+       /\ Forall (fun l => exists i h name, colour_name templates i = Some name
+                    /\ l = los "\definecolor{" ++ name ++ los "}{HTML}{" ++ los h ++ [rbrace]) cdefs
+       /\ Forall (fun l => (exists ly, In ly layer_names /\ l = los "% " ++ los ly)
+                           \/ ends_with_semi l = true) body
+       /\ occ (los "\begin{") (join_with [nl] lines) = 1
+       /\ occ (los "\end{") (join_with [nl] lines) = 1.
+Proof. exact render_full_balanced. Qed.
+Print Assumptions C15_render_full_balanced.
+
+(* the two fixed lines of the statement above *)
+Theorem C15_begin_end_lines :
+  begin_line = los "\begin{tikzpicture}" /\ end_line = los "\end{tikzpicture}".
+Proof. split; reflexivity. Qed.
+Print Assumptions C15_begin_end_lines.
+
+(* the hypothesis [text_lines ... = Some lines] excludes nothing: whenever [render_full] succeeds
+   (no hypothesis on braces), the text is defined for every choice of as many coordinates /
+   parameters as the template of each line has such holes *)
+Theorem C15_render_full_text_defined : forall vertical ewidth swidth t spp ols frees,
+  render_full templates skeleton layer_names vertical ewidth swidth t spp = Some ols ->
+  Forall2 (fun (o : oline) f => forall e, nth_error templates (fst (fst o)) = Some e ->
+             length f = free_count (e_items e)) ols frees ->
+  exists lines, text_lines templates ols frees = Some lines.
+Proof. exact render_full_text_defined. Qed.
+Print Assumptions C15_render_full_text_defined.
+
+(* the decimal index and the colour names are brace-free, as the statement templates need *)
+Theorem C15_colour_index_brace_free : forall n, brace_free (dec n).
+Proof. exact dec_brace_free. Qed.
+Print Assumptions C15_colour_index_brace_free.
 
 (** ** Colours *)
 
@@ -263,6 +338,26 @@ Proof.
   - reflexivity.
   - reflexivity.
 Qed.
+
+(* a whole drawing: object tree ((a_1,b_1[green])x[red],c_1)r with syntenies in the species tree
+   ((A sp,B)X_1,C)R, vertical, wrap widths 6 and 3 -- a speciation, a duplication, four leaves, a
+   transfer and a loss; every coordinate is 12.5,-3 and every parameter 2pt.  The kernel evaluates
+   [render_full], the 33 lines of text, the brace scan of the whole text and the count of \begin{ *)
+Example C15_example_render :
+  tree_ok ex_tree
+  /\ Forall (fun s : bool * string * list rbranch => brace_free (los (snd (fst s)))) ex_spp
+  /\ exists ols lines,
+       render_full templates skeleton layer_names true (Some 6) (Some 3) ex_tree ex_spp = Some ols
+       /\ Forall (Forall brace_free) (ex_frees ols)
+       /\ text_lines templates ols (ex_frees ols) = Some lines
+       /\ length lines = 33
+       /\ nth_error lines 2 = Some (los "\definecolor{reccolor1}{HTML}{FF0000}")
+       /\ nth_error lines 8 = Some (los "\path[species background, rounded corners={2pt}] (12.5,-3) -- (12.5,-3) -- node[species label] {A\\sp} (12.5,-3) -- (12.5,-3);")
+       /\ nth_error lines 24 = Some (los "\node[speciation={reccolor0}] at (12.5,-3) {f1,\\g\_2,\\h\\3};")
+       /\ nth_error lines 26 = Some (los "\node[extant gene={reccolor1}{a\textsubscript{1}}] at (12.5,-3) {};")
+       /\ scan (join_with [nl] lines) 0 = Some 0
+       /\ occ (los "\begin{") (join_with [nl] lines) = 1.
+Proof. exact render_example. Qed.
 
 Example C15_example_label :
   option_map sol (synteny_text (Some 9) (Some (map los ["a_1"; "b\c"; "dd"; "e"]%string)))
